@@ -356,6 +356,23 @@ class _TypeShim(object):
         return "<class '%s'>" % self.name
 
 
+class _ObjectShim(object):
+    """The builtin `object` as the analysed code sees it: object() and object.__new__(cls) for repository classes
+    (an instance without running __init__, as used by copy-like fast constructors)."""
+
+    def __call__(self):
+        return object()
+
+    @staticmethod
+    def __axi_new__(cls, *a, **k):
+        if isinstance(cls, ClassVal):
+            return Obj(cls)
+        return object.__new__(cls)
+
+    def __repr__(self):
+        return "<class 'object'>"
+
+
 class _Signal(object):
     __slots__ = ("kind", "value")
 
@@ -620,6 +637,7 @@ class Interp(object):
         ):
             b[name] = getattr(builtins, name)
         b["print"] = lambda *a, **k: None
+        b["object"] = _ObjectShim()
         b["isinstance"] = self.b_isinstance
         b["issubclass"] = self.b_issubclass
         b["type"] = self.b_type
@@ -738,6 +756,8 @@ class Interp(object):
             if name == "__class__":
                 return type
             a, owner = v.find(name)
+            if owner is None and name == "__new__":
+                return _ObjectShim.__axi_new__  # inherited from object: an instance without __init__
             if owner is None:
                 raise AttributeError("class %s has no attribute %s" % (v.name, name))
             if isinstance(a, ClassMethod):
@@ -756,6 +776,8 @@ class Interp(object):
             raise AttributeError("module %s has no attribute %s" % (v.__dict__["name"], name))
         if isinstance(v, Fraction) and name in ("real",):
             return v
+        if isinstance(v, _ObjectShim) and name == "__new__":
+            return _ObjectShim.__axi_new__
         return getattr(v, name)
 
     def obj_getattr(self, o, name):
